@@ -1,9 +1,7 @@
 """Random command generators for streams (C15) and consumer groups (C16).
 
-Both avoid exactly two inputs, because they kill the server process (a crash can never be accepted by the trace
-spec, so it cannot be carried as a deviation; see out/streams_findings.json):
-  * XADD key * ... once the greatest possible id 18446744073709551615-18446744073709551615 may be the stream's last id
-  * XPENDING key group start end count with start > end
+The two inputs that used to kill the server process (XADD key * at the greatest possible id; XPENDING with
+start > end) are generated like any other since their repair (known_findings F070, F082).
 """
 from workloads import Pool
 
@@ -86,8 +84,6 @@ class StreamGen(Pool):
                 self.nostar.add(k)
             return [b'XADD', k, i] + self.fields()
         if c < 19:
-            if k in self.nostar:
-                return [b'XLEN', k]
             return [b'XADD', k, b'*'] + self.fields()
         if c < 22:
             return [b'XLEN', k]
@@ -131,8 +127,6 @@ class StreamGen(Pool):
             return [b'XREVRANGE', k, b'+', b'-', b'COUNT', r.choice([b'1', b'2'])]
         if c == 57:
             return [b'XTRIM', k, b'MAXLEN', b'0']
-        if k in self.nostar:
-            return [b'XLEN', k]
         return [b'XADD', k, b'*'] + self.fields()
 
 
@@ -207,8 +201,6 @@ class GroupGen(Pool):
             return [b'XPENDING', k, g]
         if c < 86:
             lo, hi = r.choice([b'-', b'-', self.sid(k)]), r.choice([b'+', b'+', self.sid(k)])
-            if idkey(lo) > idkey(hi):      # start > end kills the server
-                lo, hi = hi, lo
             a = [b'XPENDING', k, g, lo, hi, r.choice([b'10', b'10', b'1', b'2', b'0'])]
             if r.random() < 0.3:
                 a.append(cn)
@@ -257,21 +249,7 @@ class GroupGen(Pool):
 # drivers
 # ---------------------------------------------------------------------------
 def crashes_server(path):
-    """TLC-generated paths that contain one of the two inputs known to kill the server process (see module doc)."""
-    maxed = set()
-    for a in path:
-        name = a[0].upper()
-        if name == b'XADD' and len(a) > 2:
-            if a[2] == MAXID:
-                maxed.add(a[1])
-            elif a[2] == b'*' and a[1] in maxed:
-                return True
-        elif name in (b'DEL', b'SET', b'FLUSHDB', b'FLUSHALL') and len(a) > 1:
-            maxed.discard(a[1])
-        elif name == b'XPENDING' and len(a) >= 6:
-            lo, hi = idkey(a[3]), idkey(a[4])
-            if lo is not None and hi is not None and lo > hi:
-                return True
+    """kept for callers: no generated path is withheld any more (F070, F082 are repaired)"""
     return False
 
 
